@@ -366,6 +366,81 @@ def listener_pass(ctx):
                 return
 
 
+def resource_observer_pass(ctx):
+    """observers on the containing resource *only* (nobody listens to the objects themselves), objects at every depth of
+    the containment tree — roots, children, grandchildren, with and without a sibling observer of their own: the resource's
+    observers hear of every change of every object the resource contains, once, with that object as the notifier; objects
+    outside the resource are not reported to it"""
+    from pyecore import ecore as E
+    from pyecore.notification import EObserver
+    from pyecore.resources.resource import Resource
+    for k in range(40 if ctx.quick() else 600):
+        rng = common.sub_rng(ctx.seed, 'C05', 'resource-observer', k)
+        A = E.EClass('A')
+        A.eStructuralFeatures.extend([E.EAttribute('n', E.EInt), E.EAttribute('xs', E.EInt, upper=-1, unique=False),
+                                      E.EReference('kids', A, upper=-1, containment=True), E.EReference('friend', A)])
+        res = Resource()
+        inside, outside = [], []
+        for _ in range(rng.randint(1, 2)):
+            r = A()
+            res.append(r)
+            inside.append(r)
+        for _ in range(rng.randint(1, 5)):
+            parent = rng.choice(inside)
+            c = A()
+            parent.kids.append(c)
+            inside.append(c)
+        lone = A()
+        outside.append(lone)
+        c2 = A()
+        lone.kids.append(c2)
+        outside.append(c2)
+        heard = []
+
+        class Obs(EObserver):
+            def notifyChanged(self, n):
+                heard.append((id(n.notifier), n.kind.name, n.feature.name))
+        res.listeners.append(Obs())
+        own = []
+        for o in inside + outside:
+            if rng.random() < .25:
+                EObserver(o, notifyChanged=lambda n: own.append(n))
+        want = []
+        calls = []
+        for _ in range(rng.randint(3, 8)):
+            o = rng.choice(inside + inside + outside)
+            c = rng.random()
+            if c < .4:
+                v = rng.randint(1, 9)
+                while v == o.n:
+                    v = rng.randint(1, 9)
+                o.n = v
+                ev = (id(o), 'SET', 'n')
+            elif c < .7:
+                o.xs.append(rng.randint(1, 9))
+                ev = (id(o), 'ADD', 'xs')
+            else:
+                t = rng.choice(inside + outside)
+                if o.friend is t:
+                    continue
+                o.friend = t
+                ev = (id(o), 'SET', 'friend')
+            depth, p = 0, o
+            while p.eContainer() is not None:
+                depth, p = depth + 1, p.eContainer()
+            calls.append(f'{ev[1]} {ev[2]} on an object at depth {depth} {"inside" if any(o is x for x in inside) else "outside"} the resource')
+            if any(o is x for x in inside):
+                want.append(ev)
+        ctx.evaluations += 1
+        ctx.nontriv(('resource-observer', k))
+        ctx.count('resource-observer/changes', len(want))
+        if heard != want:
+            ctx.violate({'clause': 'exactly-once', 'listeners': 'resource-only'},
+                        f'the observer of the resource heard {len(heard)} changes where {len(want)} happened inside it '
+                        f'(calls: {calls})', {'resource_observer': k, 'calls': calls})
+            return
+
+
 def run(ctx):
     common.use_repo()
     ctx.rule = ('(a) exhaustive slot level: every slot state over a universe of 3 (quick) / 4 elements x every mutator x every index '
@@ -378,6 +453,7 @@ def run(ctx):
     history_level(ctx)
     crossworld.notification_pass(ctx)
     listener_pass(ctx)
+    resource_observer_pass(ctx)
     equal_values_pass(ctx)
     ctx.assumptions += ['set.discard() is not in the property\'s operation list and bypasses notification (not judged)',
                         'notifications that report no change (SET old==new, ADD of a present element of a set) are not violations',
